@@ -18,6 +18,7 @@ RULE = ('random nestings of list/tuple/dict/Dict/dictattr to depth 4 with scalar
         'or a list/dict whose length/keys match no level) passed positionally, by keyword and mixed; library helpers on nested mixed leaves; zipper/lens over scalars and sequences of '
         'lengths 0..4; waiter over structures with k<=6 awaitables (Futures, coroutines, Tasks) under ALL k! completion orders; non-trivial = depth>=2 with >=1 positional companion, '
         'or a completion order different from creation order; distinct = canonical hash of (structure, companions, passing) or (structure, order)')
+RULE_ALSO = "; added by the coverage audit and round 8: awaitables resolving to None / 0 / '' / False / a list, split with a container of dedup flags"
 ASSUMPTIONS = ['companions are generated to be unambiguous: a container companion either matches the level it meets exactly (same length / same keys) or matches no level at all',
                'leaves are non-containers (tuples are containers for loop)', 'replace/split are exercised with scalar old/new/sep', 'waiter structures hold each awaitable once']
 
